@@ -433,7 +433,7 @@ func (e *Engine) call(fr *Frame, st *State, reach Term, site ssa.Instruction, c 
 	e.exposing = false
 	st.havocPrefix([]string{""}, true)
 	res := e.havocVal(reach, "res."+label, resType)
-	e.labels[label] = &callLabel{Callee: id, Reach: reach, Args: args, Results: splitResults(res)}
+	e.labels[label] = &callLabel{Callee: id, Reach: reach, Args: args, Results: splitResults(res), After: st.clone()}
 	return res, reach
 }
 
@@ -870,7 +870,7 @@ func (e *Engine) applyContract(fr *Frame, st *State, reach Term, fc *FuncContrac
 		}
 		e.assume(reach, c)
 	}
-	e.labels[label] = &callLabel{Callee: id, Reach: reach, Args: args, Results: results}
+	e.labels[label] = &callLabel{Callee: id, Reach: reach, Args: args, Results: results, After: st.clone()}
 	return res
 }
 
@@ -878,7 +878,7 @@ func (e *Engine) applyContract(fr *Frame, st *State, reach Term, fc *FuncContrac
 func usesTrace(x Expr) bool {
 	switch n := x.(type) {
 	case ECall:
-		if id, ok := n.Fun.(EIdent); ok && (id.Name == "called" || id.Name == "res" || id.Name == "arg") {
+		if id, ok := n.Fun.(EIdent); ok && (id.Name == "called" || id.Name == "res" || id.Name == "arg" || id.Name == "after") {
 			return true
 		}
 		for _, a := range n.Args {
